@@ -49,6 +49,7 @@ type specCtx struct {
 	letExprs  map[string]ast.Expr
 	letBusy   map[string]bool
 	addrVars  map[string]PtrV
+	preferEnv bool
 	noGhost   bool // evaluating a callee's contract at a call site: its ghost event queries are not visible here
 	head      *headSnap
 	envOver   map[string]envEntry // when set, replaces the frame's variable environment
@@ -204,6 +205,18 @@ func (x *Exec) evalSpec(sc *specCtx, e ast.Expr) Value {
 func (sc *specCtx) lookupVar(name string) (Value, bool) {
 	if v, ok := sc.bound[name]; ok {
 		return v, true
+	}
+	if sc.preferEnv && sc.frame != nil && sc.envOver == nil {
+		// inside the function body (loop invariants, iteration and fold clauses) a name denotes the
+		// variable's current value, also for parameters that were reassigned
+		if ent, ok := sc.frame.env[name]; ok {
+			if ent.isAddr {
+				if p, ok := ent.v.(PtrV); ok {
+					return sc.load(p), true
+				}
+			}
+			return ent.v, true
+		}
 	}
 	if v, ok := sc.vars[name]; ok {
 		return v, true
@@ -611,6 +624,7 @@ func (x *Exec) evalSpecCall2(sc *specCtx, e *ast.CallExpr) Value {
 		o := *sc
 		o.heap = sc.old.heap
 		o.frame = nil
+		o.preferEnv = false
 		o.vars = map[string]Value{}
 		for k, v := range sc.old.params {
 			o.vars[k] = v
@@ -1044,8 +1058,16 @@ func (x *Exec) matchEvent(sc *specCtx, f ast.Expr, ev *Event) Term {
 				}
 			}
 		}
-		// recv.Method
+		// recv.Method, or recv.field where the field holds a function value
 		base := x.evalSpec(sc, f.X)
+		if pb, ok := base.(PtrV); ok {
+			_, pt := subLeaves(pb.Root, pb.Path)
+			if _, ft, ok := fieldPath(pt, f.Sel.Name); ok {
+				if _, isFn := ft.Underlying().(*types.Signature); isFn {
+					base = x.selectField(sc, base, f.Sel.Name)
+				}
+			}
+		}
 		switch b := base.(type) {
 		case PoisonV:
 			return tFalse
@@ -1077,7 +1099,16 @@ func (x *Exec) matchEvent(sc *specCtx, f ast.Expr, ev *Event) Term {
 			return tFalse
 		case FuncV:
 			if cv, ok := ev.Callee.(FuncV); ok {
-				return boolLit(cv.ID.S == b.ID.S)
+				if cv.ID.S == b.ID.S {
+					return tTrue
+				}
+				if ev.Name != f.Sel.Name {
+					return tFalse
+				}
+				if os.Getenv("GOVC_DEBUG") != "" {
+					fmt.Fprintf(os.Stderr, "matchEvent func field: %s vs %s\n", cv.ID.S, b.ID.S)
+				}
+				return eq(cv.ID, b.ID)
 			}
 			return tFalse
 		}
@@ -1116,7 +1147,12 @@ func (x *Exec) ghostCalls(sc *specCtx, args []ast.Expr) Term {
 				m = tFalse
 				break
 			}
-			m = and(m, x.specEqual(ev.Args[i+off], x.evalSpec(sc, pa)))
+			pv := x.evalSpec(sc, pa)
+			if isPoison(pv) {
+				m = and(m, x.sym.fresh("undefined", SBool))
+				continue
+			}
+			m = and(m, x.specEqual(ev.Args[i+off], pv))
 		}
 		if m.S == "false" {
 			continue
